@@ -95,6 +95,10 @@ func errWrongElementType(desc string, expected, actual reflect.Type) error {
 	return fmt.Errorf("wrong %s, expected %s, got: %v", desc, expected, actual)
 }
 
+func errMapKeyNotHashable(actual reflect.Type) error {
+	return fmt.Errorf("wrong map key, expected hashable type, got: %v", actual)
+}
+
 func errWrongElementTypes(desc string, expected1, expected2, actual reflect.Type) error {
 	return fmt.Errorf("wrong %s, expected %s or %s, got: %v", desc, expected1, expected2, actual)
 }
